@@ -511,9 +511,9 @@ class Queue(Greenlet):
             try:
                 now = time.time()
                 self._check_ready(now)
-                self._wait_ready(now)
             finally:
                 self.queued_lock.release()
+            self._wait_ready(now)
 
 
 # vim:et:fdm=marker:sts=4:sw=4:ts=4
